@@ -139,7 +139,7 @@ func refName(b []byte, off int) ([][]byte, int, bool) {
 				end = off + 2
 			}
 			hops++
-			if hops > 126 {
+			if hops > 127 {
 				return nil, 0, false
 			}
 			off = (c&0x3F)<<8 | int(b[off+1])
